@@ -9,6 +9,7 @@ import os, re, itertools, importlib.util
 from engines import chk, xhair
 
 KERNEL = os.path.join(chk.VERIF, 'kernels', 'k_c18.py')
+PY = '/venv/bin/python'   # the repository's own interpreter (the one its test suite runs under)
 
 FUNCTIONS = ['ParseCtx._convert_string', 'ParseCtx._convert_char_const', 'ParseCtx._convert_binary_string', 'ParseCtx._convert_int',
              'ParseCtx._parse_out_decl (int_type / str_type / unterm_str_type branches, hand-built lark trees)',
@@ -81,6 +82,50 @@ def validate_scanners(run, mod):
     return True
 
 
+def structure_replays(run):
+    """Not a solver obligation: concrete replays, through the real command line, of the programs of corpus/c18/ - grammatical programs
+    and option sets that once made the compiler die with an internal exception (findings that came from outside the token-level kernels,
+    all repaired in /repo and listed as fixed). Each must end with generated code or a diagnosed error; a traceback, a signal or a
+    timeout is reported as a violation again. Totality over program structure in general stays outside the claim."""
+    import glob, subprocess, tempfile, shutil
+    files = sorted(glob.glob(os.path.join(chk.VERIF, 'corpus', 'c18', '*.nmfu')))
+    done = []
+    for f in files:
+        src = open(f).read()
+        args = nm_split_args(src)
+        d = tempfile.mkdtemp(prefix='c18s-')
+        try:
+            try:
+                p = subprocess.run([PY, os.path.join(chk.REPO, 'nmfu.py'), *args, f, '-o' + os.path.join(d, 'out')], capture_output=True, text=True, timeout=120, cwd=d)
+                rc, err = p.returncode, p.stderr
+            except subprocess.TimeoutExpired:
+                rc, err = 'timeout', ''
+            made = os.path.exists(os.path.join(d, 'out.c')) and os.path.exists(os.path.join(d, 'out.h'))
+        finally:
+            shutil.rmtree(d, ignore_errors=True)
+        first = (err.strip().splitlines() or [''])[0]
+        diagnosed = rc not in (0, 'timeout') and 'Traceback' not in err and bool(re.match(r'(Syntax|Parse|Compile|Codegen) error:|Invalid value for option|Unknown |Conflict|No input|Invalid', first))
+        good = (rc == 0 and made) or diagnosed
+        name = os.path.basename(f)
+        if good:
+            done.append({'program': name, 'args': args, 'outcome': 'code generated' if rc == 0 else 'diagnosed: ' + first[:100]})
+        else:
+            last = (err.strip().splitlines() or [''])[-1]
+            run.violation('C18/structure:' + name, {'program': 'corpus/c18/' + name, 'args': args, 'exit': rc, 'stderr_last_line': last[:300], 'source': src,
+                                                    'replay': {'reproduced': True, 'how': 'nmfu.py run as a subprocess on the file'}},
+                          f'the compiler does not end with code or a diagnosed error on corpus/c18/{name}: exit {rc}, {last[:160]}')
+    run.cov['structure_replays'] = {'note': 'concrete replays of repaired structural crashes (not solver obligations)', 'programs': done}
+    run.fixed_checked += [x['program'] for x in done]
+
+
+def nm_split_args(src):
+    out = []
+    for line in src.splitlines():
+        if line.startswith('// args:'):
+            out += line[len('// args:'):].split()
+    return out
+
+
 def configs(tier):
     return THOROUGH if tier == 'thorough' else QUICK
 
@@ -103,6 +148,7 @@ def main(tier, replay):
         xhair.absorb(run, xhair.run_jobs(jobs), KERNEL)
         run.bounds.update({ob: [c.get('label') + (f" ({c.get('parts')} parts)" if c.get('parts', 1) > 1 else '') for c in cs]
                            for ob, cs in cfgs.items()})
+    structure_replays(run)
     return run.finish(EXPLANATION)
 
 
